@@ -76,7 +76,8 @@ func VerifC19Keys() {
 	if n < 34 {
 		key = vBytes("key", n)
 	}
-	err := validateKey(key)
+	VerifAEADInstall(vBytes)
+	_, err := EncryptWithKey([]byte{1}, key) // (through the exported API: the helper behind it may be refactored)
 	allZero := true
 	for _, b := range key {
 		allZero = vAnd(allZero, b == 0)
@@ -88,9 +89,6 @@ func VerifC19Keys() {
 		vReach("accepted")
 	}
 	vAssert((err != nil) == bad, "key validation differs from: missing, wrong size or all-zero keys are refused, all others accepted")
-	VerifAEADInstall(vBytes)
-	_, eerr := EncryptWithKey([]byte{1}, key)
-	vAssert((eerr != nil) == bad, "EncryptWithKey accepts a key that validation refuses (or the reverse)")
 	_, derr := DecryptStringWithKey(make([]byte, 41), key)
 	vAssert(vImplies(bad, derr != nil), "DecryptStringWithKey accepts a key that validation refuses")
 }
